@@ -17,6 +17,8 @@ const (
 	hkError
 	hkCancelClosed
 	hkEvalExit
+	hkJoinBefore
+	hkJoinAfter
 )
 
 func verifHook(*lexer, int) {}
